@@ -29,11 +29,15 @@ func checkC03(c *Ctx) {
 	c.Rule("C03/R3", "the iteration-count fast path cannot overflow: for each word size the digit-count bound d of the unchecked path satisfies 10^d-1 <= MaxInt of that size; everything else goes to the checked parser")
 	c.Rule("C03/R4", "exponent range check: in the decimal-to-bits conversion every increase of the binary exponent is followed, before the bits are assembled, by the test against the format's exponent limit (otherwise out-of-range text yields a silent Inf/garbage instead of a range error)")
 
+	c.Rule("C03/R6", "saturation contract between the integer parsers: every range-error return of ParseUint carries (1<<bitSize)-1, which ParseInt (which ignores that error) needs in order to re-derive the range error from its cutoff comparison")
+	c.Rule("C03/R5", "port fidelity: each function of the byte-slice port that was carried over from the standard library's strconv unchanged agrees with the strconv function of the same name in $GOROOT, region by region (symbolic path tables: same path conditions, same calls in the same order, same stores, same results and same loop-variable updates after renaming the package and erasing register numbers)")
 	p := mustLoad(c, loadOpts{}, "./benchfmt", "./benchfmt/internal/bytesconv")
 	c03Errors(c, p)
 	c03FastFloat(c, p)
 	c03FastInt(c, p)
 	c03Exponent(c, p)
+	c03Port(c, "C03/R5")
+	c03Saturate(c, p)
 	if c.Tier == "thorough" {
 		if c.override == nil {
 			c03Drift(c, p)
@@ -625,4 +629,145 @@ func inFamily(v ssa.Value, fn *ssa.Function, expAt ssa.Value) bool {
 		}
 	}
 	return false
+}
+
+// c03Port: functions of the port that are semantically unchanged from strconv must agree with it (E8).
+// The table was obtained by running the comparison on the pinned tree and reading each differing function:
+// the port checks underscores up front (ParseUint, ParseInt, readFloat, atof32/64, ParseFloat), has its own
+// special() without a prefix length, and builds error values without stringslite.Clone (the four *Error helpers,
+// NumError.Error, Atoi); those are covered by R1-R4 instead.
+var c03Carried = []string{
+	"atof32exact", "atof64exact", "atofHex", "decimal.Assign", "decimal.Round", "decimal.RoundDown", "decimal.RoundUp",
+	"decimal.RoundedInteger", "decimal.Shift", "decimal.String", "decimal.floatBits", "decimal.set", "digitZero",
+	"leftShift", "lower", "prefixIsLessThan", "rightShift", "shouldRoundUp", "trim", "underscoreOK",
+}
+
+func c03Port(c *Ctx, R string) {
+	p := mustLoad(c, loadOpts{}, "./benchfmt/internal/bytesconv", "strconv")
+	pairs := map[string]sibPair{}
+	for _, pr := range sibPairs(p, "benchfmt/internal/bytesconv", "strconv") {
+		pairs[pr.name] = pr
+	}
+	fns := p.Funcs("benchfmt/internal/bytesconv", "strconv")
+	eff := newEffects(p, fns)
+	pureOne := func(fn *ssa.Function) bool {
+		sm := eff.sums[fn]
+		return sm != nil && !sm.writesAnyParam() && len(sm.WritesGlobal) == 0 && len(sm.Outputs) == 0 && len(sm.Unknown) == 0 && len(sm.LooseFields) == 0
+	}
+	// a call is a value (not an action) only when the callee is side-effect free in both packages, so that both
+	// siblings are tabulated alike
+	pureBoth := map[*ssa.Function]bool{}
+	for _, pr := range pairs {
+		if pureOne(pr.a) && pureOne(pr.b) {
+			pureBoth[pr.a], pureBoth[pr.b] = true, true
+		}
+	}
+	sibPure = func(f *types.Func) bool {
+		if f.Pkg() != nil && (f.Pkg().Path() == "math" || f.Pkg().Path() == "math/bits") {
+			return true
+		}
+		return pureBoth[p.SSA.FuncValue(f)]
+	}
+	defer func() { sibPure = nil }()
+	nrec := 0
+	for _, name := range c03Carried {
+		pr, ok := pairs[name]
+		if !ok {
+			c.Undecided(R, "port:"+name, "", "the function no longer exists in the port or in this toolchain's strconv")
+			continue
+		}
+		diff, n, why := sibCompare(pr.a, pr.b, sibNorm{[]string{modPath + "/benchfmt/internal/bytesconv"}}, sibNorm{[]string{"strconv"}}, 20000)
+		nrec += n
+		site := p.pos(pr.a.Pos())
+		switch {
+		case why != "":
+			c.Undecided(R, "port:"+name, site, "cannot tabulate: "+why)
+		case diff != "":
+			c.Bad(R, "port:"+name, site, "the port no longer computes what strconv."+name+" computes: "+diff)
+		default:
+			c.OK(R, "port:"+name, site, fmt.Sprintf("%d path records agree with strconv", n))
+		}
+	}
+	c.Floor(R, "path records compared with strconv", nrec, 400)
+}
+
+// c03Saturate: ParseInt drops ParseUint's range error and re-derives it from the returned magnitude, so every
+// range-error return of ParseUint must carry the saturated value (1<<bitSize)-1; returning anything smaller makes
+// ParseInt report an out-of-range iteration count as a small number without error.
+func c03Saturate(c *Ctx, p *Prog) {
+	const R = "C03/R6"
+	fn := p.Fn("benchfmt/internal/bytesconv", "ParseUint")
+	if fn == nil {
+		c.Undecided(R, "anchor:ParseUint", "", "not found")
+		return
+	}
+	isMax := func(v ssa.Value) bool {
+		// (1 << bitSize) - 1, possibly through a phi of identical shapes
+		var chk func(v ssa.Value, d int) bool
+		chk = func(v ssa.Value, d int) bool {
+			if d > 3 {
+				return false
+			}
+			switch x := v.(type) {
+			case *ssa.BinOp:
+				if x.Op != token.SUB {
+					return false
+				}
+				if k, ok := constInt(x.Y); !ok || k != 1 {
+					return false
+				}
+				sh, ok := x.X.(*ssa.BinOp)
+				if !ok || sh.Op != token.SHL {
+					return false
+				}
+				k, ok := constInt(stripConv(sh.X))
+				return ok && k == 1
+			case *ssa.Phi:
+				for _, e := range x.Edges {
+					if !chk(e, d+1) {
+						return false
+					}
+				}
+				return len(x.Edges) > 0
+			}
+			return false
+		}
+		return chk(v, 0)
+	}
+	n := 0
+	for _, b := range fn.Blocks {
+		ret, ok := b.Instrs[len(b.Instrs)-1].(*ssa.Return)
+		if !ok || len(ret.Results) != 2 {
+			continue
+		}
+		ev := retVal(ret, 1)
+		if mi, ok := ev.(*ssa.MakeInterface); ok {
+			ev = mi.X
+		}
+		call, ok := ev.(*ssa.Call)
+		if !ok || !objIs(calleeObj(&call.Call), modPath+"/benchfmt/internal/bytesconv", "", "rangeError") {
+			continue
+		}
+		n++
+		c.Check(isMax(retVal(ret, 0)), R, fmt.Sprintf("ParseUint:range-return#%d", n), p.pos(ret.Pos()),
+			"the range-error return carries (1<<bitSize)-1", "a range-error return of ParseUint does not carry the saturated value (1<<bitSize)-1: ParseInt ignores ParseUint's range error and compares the returned magnitude with its cutoff, so an iteration count just above 2^64 is reported as this value with no error")
+	}
+	c.Floor(R, "range-error returns in ParseUint", n, 2)
+	// ParseInt really does rely on it: the ErrRange case falls through to the cutoff comparison
+	pi := p.Fn("benchfmt/internal/bytesconv", "ParseInt")
+	if pi == nil {
+		c.Undecided(R, "anchor:ParseInt", "", "not found")
+		return
+	}
+	cmp := 0
+	eachInstr(pi, func(_ *ssa.BasicBlock, in ssa.Instruction) {
+		if bo, ok := in.(*ssa.BinOp); ok && (bo.Op == token.GEQ || bo.Op == token.GTR) {
+			if ex, ok := bo.X.(*ssa.Extract); ok && ex.Index == 0 {
+				if call, ok := ex.Tuple.(*ssa.Call); ok && objIs(calleeObj(&call.Call), modPath+"/benchfmt/internal/bytesconv", "", "ParseUint") {
+					cmp++
+				}
+			}
+		}
+	})
+	c.Check(cmp >= 2, R, "ParseInt:cutoff-comparisons", p.pos(pi.Pos()), "ParseInt compares the magnitude with the cutoff for both signs", "ParseInt no longer compares ParseUint's magnitude with the signed cutoff for both signs")
 }
